@@ -12,10 +12,10 @@ from checks.base import corpus_cases
 
 LEVEL = 'proof'
 ASSUMPTIONS = [
-    'message IDs are ASCII digit strings (leading zeros included); Python int() on signs, underscores, surrounding '
-    'whitespace and non-ASCII digits is outside the model and not generated',
+    'message IDs are ASCII digit strings (leading zeros included), possibly surrounded by white space as in re-indented XML; '
+    'Python int() on signs, underscores and non-ASCII digits is outside the model and not generated',
 ]
-ID_SETS = [['9', '10', '100'], ['2', '11', '1', '3'], ['007', '8', '10', '9'], ['99', '100', '101', '1000', '5'],
+ID_SETS = [['9', '10', '100'], ['\n    9\n  ', ' 10 ', '8', '100\t'], ['2', '11', '1', '3'], ['007', '8', '10', '9'], ['99', '100', '101', '1000', '5'],
            ['1', '2', '3', '4', '5', '6'], ['10', '9'], ['20', '3', '100', '0099']]
 
 
@@ -30,11 +30,11 @@ def messages(ids, rng, ro_at=0):
     docs[ro_id] = gens.make_ro(['A', 'B', 'C'], message_id=ro_id)
     for k, mid in enumerate(rest):
         if k % 3 == 0:
-            d = story_append(mid, [gens.new_story('S' + mid)])
+            d = story_append(mid, [gens.new_story('S' + mid.strip())])
         elif k % 3 == 1:
-            d = story_move(mid, ['S' + rest[k - 1], 'A'])      # moves the story appended just before
+            d = story_move(mid, ['S' + rest[k - 1].strip(), 'A'])      # moves the story appended just before
         else:
-            d = story_move(mid, ['C', 'S' + rest[k - 2]])
+            d = story_move(mid, ['C', 'S' + rest[k - 2].strip()])
         d.find('messageID').text = mid
         docs[mid] = d
     return [to_text(docs[i]) for i in ids]
